@@ -7,6 +7,7 @@ import SphericalVerif.Gen.RotHKern
 import SphericalVerif.Gen.EulerKern
 import SphericalVerif.Gen.MethodKern
 import SphericalVerif.Gen.MulKern
+import SphericalVerif.Gen.W3jKern
 import SphericalVerif.Model.Assemble
 import SphericalVerif.Model.W3j
 import SphericalVerif.Spec.Orderings
@@ -305,6 +306,14 @@ def step (line : String) : String :=
       if t.1.toNat < lo then cxs (⟨0.0, 0.0⟩ : Cx Float)
       else cxs (rotateHornerEntry (α := Float) st f z0 zgp t.1.toNat t.2))
     String.intercalate " " out
+  | ["genw3j", size, j2, j3, m2, m3, poison] =>
+    -- the GENERATED `Wigner3jCalculator.calculate` (Gen/W3jKern.lean) on a poisoned workspace (array 3); cell 4*size is the exception flag
+    let size := size.toNat!
+    let st0 : HFMem Float := { map := ∅, dflt := bf poison }
+    let st0 := fwr (α := Float) st0 3 ((4*size : Nat) : Int) 0.0
+    let st := Gen.Wigner3jCalculator_calculate (α := Float) 3 (size : Int) j2.toInt! j3.toInt! m2.toInt! m3.toInt! st0
+    if frd (α := Float) st 3 ((4*size : Nat) : Int) == 1.0 then "raised"
+    else join ((Array.range size).map (fun (i : Nat) => fb (frd (α := Float) st 3 (i : Int))))
   | ["w3j", size, j2, j3, m2, m3, poison] =>
     let size := size.toNat!
     let r := W3j.calculate (α := Float) size (Array.replicate (4*size) (bf poison)) j2.toInt! j3.toInt! m2.toInt! m3.toInt!
